@@ -38,9 +38,10 @@ impl ToTokens for FromMetaImpl<'_> {
             // Unit structs allow empty bodies only.
             Data::Struct(ref vd) if vd.style.is_unit() => {
                 let ty_ident = base.ident;
+                let post_transform = base.post_transform_call();
                 quote!(
                     fn from_word() -> ::darling::Result<Self> {
-                        ::darling::export::Ok(#ty_ident)
+                        ::darling::export::Ok(#ty_ident) #post_transform
                     }
 
                     #from_none
@@ -54,11 +55,20 @@ impl ToTokens for FromMetaImpl<'_> {
                 ..
             }) if fields.len() == 1 => {
                 let ty_ident = base.ident;
+                // The only field is converted like any other field: by its `with` function if it
+                // has one, then by its `map` / `and_then`; the container's own `map` / `and_then`
+                // sees the finished value.
+                let field = &fields[0];
+                let with_callable = &field.with_callable;
+                let field_post_transform = field.post_transform.as_ref();
+                let post_transform = base.post_transform_call();
                 quote!(
                     fn from_meta(__item: &::darling::export::syn::Meta) -> ::darling::Result<Self> {
-                        ::darling::FromMeta::from_meta(__item)
+                        ::darling::export::identity::<fn(&::darling::export::syn::Meta) -> ::darling::Result<_>>(#with_callable)(__item)
+                            #field_post_transform
                             .map_err(|e| e.with_span(&__item))
                             .map(#ty_ident)
+                            #post_transform
                     }
 
                     #from_none
